@@ -1082,8 +1082,14 @@ def large_array_checks(ctx):
 #   * equality only within rounding: for neighbouring points x1 < x2 on one side of the centre of symmetry /
 #     branch switch (where the derivative is monotone, so that forward grows by at least
 #     min(j1, j2) (x2 - x1) between them), forward(x2) > forward(x1) whenever half of that growth exceeds
-#     four times the rounding bound of the two values.
+#     four times the rounding bound of the two values;
+#   * mean value: for the same neighbouring points (every point has a companion a quarter of its local scale
+#     further on), (forward(x2) - forward(x1)) / (x2 - x1) lies between jacobian(x1) and jacobian(x2) (widened
+#     by 1e-3 and the rounding bound of the two forward values).  This sees a jacobian that is not the
+#     derivative where the rounding of forward blinds the stencil (the difference is taken over 64 steps and
+#     the bracket is some 10 % wide), e.g. beyond a + b*x/xmax ~ 1e6 or next to the ends of Logit.
 
+BRACKET = 1e-3         # relative widening of the mean-value bracket (the property's 1e-4 at both ends, and to spare)
 LNREP = 690.0          # e^690 = 4.7e299: |ln v| <= LNREP  =>  v is a normal binary64 number
 FAR_MAGS = [1e-300, 1e-250, 1e-200, 9e-155, 2e-154, 1e-120, 1e-100, 1e-60, 1e-30, 1e-20, 1e-16, 1e-12, 1e-9,
             1e-6, 1e-3, 0.1, 1.0, 10.0, 20.0, 40.0, 88.0, 90.0, 200.0, 354.0, 356.0, 500.0, 700.0, 708.0, 709.5,
@@ -1328,7 +1334,15 @@ def far_points(name, opts, eff, rng, nextra):
 def far_judge(ctx, name, opts, eff, t, xs, rep0):
     """the clauses of the property (header of class F) for the values `t` holds, on the points of xs inside
     far_region.  Returns the number of points judged."""
-    xs = sorted({x for x in xs if far_region(name, opts, eff, x) and far_scale(name, opts, eff, x) > 0})
+    inside = lambda x: far_region(name, opts, eff, x) and far_scale(name, opts, eff, x) > 0      # noqa: E731
+    xs = {x for x in xs if inside(x)}
+    # a companion a quarter of the local scale further on (same stretch): the pair brackets the derivative
+    # over a distance 64 times the stencil's step
+    for x in list(xs):
+        c = x + 0.25 * far_scale(name, opts, eff, x)
+        if c != x and inside(c) and far_side(name, eff, c) == far_side(name, eff, x):
+            xs.add(c)
+    xs = sorted(xs)
     if len(xs) < 1:
         return 0
     who = f"{name}{opts} {eff}"
@@ -1441,13 +1455,27 @@ def far_judge(ctx, name, opts, eff, t, xs, rep0):
         if prev is not None and i in good and prev in good and far_side(name, eff, xs[prev]) == far_side(name, eff, x):
             x1, f1, a1 = xs[prev], F[prev], A[prev]
             with np.errstate(all="ignore"):
-                growth = float(np.float64(0.5) * min(J[prev], J[i]) * (np.float64(x) - np.float64(x1)))
-            if growth > 4 * 16 * tc.U * (a1 + a) and not f > f1:
+                dx = np.float64(x) - np.float64(x1)
+                lo_, hi_ = float(min(J[prev], J[i]) * dx), float(max(J[prev], J[i]) * dx)
+            slack = 16 * tc.U * (a1 + a)
+            if 0.5 * lo_ > 4 * slack and not f > f1:
                 fail("forward-not-strictly-increasing",
                      {"method": "forward", "x1": x1, "x2": x, "f1": f1, "f2": f, "j1": J[prev], "j2": J[i]},
                      f"forward({x1!r}) = {f1!r} and forward({x!r}) = {f!r} although the derivative is at least "
                      f"{min(J[prev], J[i])!r} between them (jacobian at the two points, monotone in between): "
                      "equality beyond rounding")
+                break
+            # mean value: forward(x2) - forward(x1) = derivative at some point between, which lies between the
+            # derivatives at the two ends
+            ctx.count((name, "far", "bracket", far_side(name, eff, x)))
+            if not (lo_ * (1 - BRACKET) - slack <= f - f1 <= hi_ * (1 + BRACKET) + slack):
+                fail("jacobian-differs-from-secant",
+                     {"method": "jacobian", "x1": x1, "x2": x, "f1": f1, "f2": f, "j1": J[prev], "j2": J[i],
+                      "secant": (f - f1) / float(dx)},
+                     f"(forward({x!r}) - forward({x1!r})) / (x2 - x1) = {(f - f1) / float(dx)!r} is not between "
+                     f"jacobian({x1!r}) = {J[prev]!r} and jacobian({x!r}) = {J[i]!r} (the derivative of forward is "
+                     "monotone between these points: by the mean value theorem jacobian is not the derivative of "
+                     "forward at one of them)")
                 break
         prev = i
     return n
